@@ -443,85 +443,7 @@ def jsonable(x):
 TIMEOUTS = {"quick": 20000, "thorough": 120000}
 
 
-def abstract_nl(exprs):
-    """Replace every maximal non-linear subterm (product of non-constants, division by a
-    non-constant, ln/ex/sqrt application) by a fresh real, consistently (same AST -> same
-    variable).  If the abstracted formula is unsat, so is the original (every model of the
-    original induces a model of the abstraction)."""
-    cache = {}
-    names = {}
-
-    def is_num(e):
-        return z3.is_rational_value(e) or z3.is_int_value(e)
-
-    def walk(e):
-        k = e.get_id()
-        if k in cache:
-            return cache[k]
-        if not z3.is_app(e) or e.num_args() == 0:
-            cache[k] = e
-            return e
-        kind = e.decl().kind()
-        ch = [walk(c) for c in e.children()]
-        r = None
-        coef = None
-        if kind == z3.Z3_OP_MUL:
-            # flatten nested products, split off the numeric coefficient, sort the factors
-            facs, coef = [], Fraction(1)
-            stack = list(e.children())
-            while stack:
-                f = stack.pop()
-                if z3.is_app(f) and f.decl().kind() == z3.Z3_OP_MUL:
-                    stack.extend(f.children())
-                elif is_num(f):
-                    coef *= f.as_fraction() if z3.is_rational_value(f) else Fraction(f.as_long())
-                else:
-                    facs.append(walk(f))
-            if len(facs) >= 2:
-                facs.sort(key=lambda t: t.get_id())
-                key = ("*", tuple(t.get_id() for t in facs))
-                if key not in names:
-                    names[key] = z3.Const("abs!%d" % len(names), e.sort())
-                    names[key]._keep = facs
-                out = names[key] if coef == 1 else z3.RealVal("%d/%d" % (coef.numerator, coef.denominator)) * names[key]
-                cache[k] = out
-                return out
-        elif kind in (z3.Z3_OP_DIV, z3.Z3_OP_IDIV, z3.Z3_OP_MOD, z3.Z3_OP_POWER):
-            if not is_num(ch[1]):
-                r = "abs"
-        elif kind == z3.Z3_OP_UNINTERPRETED:
-            r = "abs"
-        if r == "abs":
-            key = (e.decl().name(), kind, tuple(c.get_id() for c in ch))
-            if key not in names:
-                srt = e.sort()
-                names[key] = z3.Const("abs!%d" % len(names), srt)
-                names[key]._keep = ch  # keep children alive (ids stay unique)
-            out = names[key]
-        else:
-            out = e.decl()(*ch) if ch else e
-        cache[k] = out
-        return out
-
-    res = [walk(e) for e in exprs]
-    # functional consistency (Ackermann): same operator, equal abstracted children -> equal result
-    groups = {}
-    for key, var in names.items():
-        sig = (key[0], len(var._keep))
-        groups.setdefault(sig, []).append(var)
-    cong = []
-    for sig, vs in groups.items():
-        if len(vs) < 2 or len(vs) > 60:
-            continue
-        for i in range(len(vs)):
-            for j in range(i + 1, len(vs)):
-                a, b = vs[i], vs[j]
-                if a.sort() != b.sort():
-                    continue
-                eqs_ = [x == y for x, y in zip(a._keep, b._keep) if x.get_id() != y.get_id()]
-                if all(x.sort() == y.sort() for x, y in zip(a._keep, b._keep)):
-                    cong.append(z3.Implies(z3.And(*eqs_) if eqs_ else z3.BoolVal(True), a == b))
-    return res + cong
+from .normal import abstract_nl  # noqa: E402
 
 
 class Prover:
@@ -730,7 +652,7 @@ class Prover:
         t0 = time.time()
         # 1st attempt: linear abstraction (decides syntactic/linear identities instantly)
         try:
-            ab = abstract_nl(pc + [neg])
+            ab = abstract_nl([neg] + list(out.extra_axioms) + list(getattr(out, "_lin_axioms", [])), context=pc)
             r0, s0, dt0 = self._check(ab, timeout=min(self.timeout, 5000))
         except Exception:
             r0 = "unknown"
